@@ -16,8 +16,8 @@ def main(tier):
         '4 naming conventions, with and without inactive boundary blocks; g -> fromgeo -> rectgeo -> (g\', map) -> fromgeo(g\', map) compared for spacings, position, surfaces, atmosphere, names, volumes, connections; '
         'repeated after extra-precision and standard data-file round trips',
         trust=('the forward contracts of C04 (block top / volume / centre) that rectgeo inverts', 'pyvc heap model of the real geometry and grid; numpy nanargmin / nanargmax: an index of an extremal non-NaN element; sets of objects iterate in creation order', 'z3'),
-        assume=('rectgeo.match_position (asin / degrees / rotate / translate) is replaced by the identity: the obligation quantifies over geometries at the origin, top at elevation 0, not rotated - position and orientation are bounded',
+        assume=('the original geometry is not rotated (match_position then computes asin(1) = pi/2 exactly, angle 0 and the identity rotation; pi is one real constant, sin(0) = 0, cos(0) = 1); rotated originals are bounded',
                 'whole-method obligations: 8 shapes (2x1x2 .. 3x2x2, 3 atmosphere types, 4 conventions, 0 or 1 symbolic surface keeping at least two layers) with symbolic spacings between layer_snap = 0.1 and 1e6, atmosphere volume >= 1e25; a one-layer column reproduces a known finding',),
         extra=[(c18, c18.programs(tier))],
-        explanation='clause -> evidence: the real t2grid.rectgeo (spacing walks, origin and top-block search, block map, surface recovery, layer snapping) run by the executor on the grid fromgeo() builds from a real rectangular geometry at the origin returns the same layer thicknesses, the same column rectangles and areas, the same surface elevations, the requested atmosphere arrangement and a block-name map under which fromgeo() of the reconstructed geometry reproduces block names, volumes and connection areas / distances: PROVED for all spacings and surfaces of the 8 shapes under assume (position / orientation assumed, see assume). The forward leaves shared with C04 are proved (block top, volume, centre, telescoping column volume). The inversion with arbitrary origin and rotation, larger grids, boundary blocks and data-file round trips is checked on 400 (quick) / 4000 (thorough) '
+        explanation='clause -> evidence: the real t2grid.rectgeo (spacing walks, origin and top-block search, block map, surface recovery, layer snapping) run by the executor on the grid fromgeo() builds from a real rectangular geometry with symbolic origin returns the same layer thicknesses, the same column rectangles and areas, the same surface elevations, the requested atmosphere arrangement and a block-name map under which fromgeo() of the reconstructed geometry reproduces block names, volumes and connection areas / distances: and the same position (origin in all three coordinates) and orientation (angle 0): PROVED for all origins, spacings and surfaces of the 8 shapes under assume. The forward leaves shared with C04 are proved (block top, volume, centre, telescoping column volume). The inversion of rotated geometries, larger grids, boundary blocks and data-file round trips is checked on 400 (quick) / 4000 (thorough) '
                     'generated rectangular geometries per run, in memory and after data-file round trips. 4 known findings (single block in x, one-layer columns, side boundary blocks, top layer not reached).')
